@@ -1083,6 +1083,7 @@ Proof.
            | snd (match ?x with Some _ => _ | None => _ end) = _ => destruct x eqn:?
            | snd (let (_, _) := ?x in _) = _ => destruct x eqn:?
            end; cbn [snd stop] in H; try discriminate H.
+  all: try (match goal with E : (if ?b then _ else _) = (_, _) |- _ => destruct b; inversion E; subst; discriminate end).
   all: try (split; [reflexivity | split; [reflexivity|]]; eexists; split; [reflexivity|];
             match goal with E : (_ || negb _) = true |- _ => apply orb_true_iff in E; destruct E as [E|E]; [left; exact E | right; apply negb_true_iff in E; exact E] end).
 Qed.
